@@ -67,6 +67,12 @@ def drop_node(S, j):
     k = j - 1
     for key in ("servers", "ps", "ps_thr", "qcap"):
         del T[key][k]
+    for x in T["servers"]:
+        if x.get("same_as") is not None:
+            if x["same_as"] == k:
+                x.pop("same_as")
+            elif x["same_as"] > k:
+                x["same_as"] -= 1
     for key in ("preempt", "disc", "spf", "ccm"):
         if T.get(key):
             del T[key][k]
